@@ -38,6 +38,7 @@ def wfB (s : BmcState) : Bool :=
   && decide (s.chassis.restorePolicy < 4) && decide (s.chassis.idState < 4)
   && allB s.bootParams (fun k d => k != 5 || decide (2 ≤ d.length))
   && allB s.lan lanWfB
+  && allB s.lanRev (fun _ r => decide (r < 256))
   && allB s.userNames (fun _ n => decide (n.length ≤ 16))
   && allB s.userEnabled (fun _ e => decide (e < 4))
   && decide (s.maxUsers < 64) && decide (s.fixedNames < 64)
@@ -49,6 +50,7 @@ def wfB (s : BmcState) : Bool :=
   && allB s.sigClass (fun _ c => decide (c < 16))
   && allB s.powerChannels (fun _ c => decide (c.status < 128))
   && decide (s.pmGlobal < 16) && decide (s.hpm.components < 256) && decide (s.hpm.selftest2 < 256)
+  && decide (s.hpm.rollbackStatus < 256) && optAll s.hpm.rollbackEstimate (· < 256)
 
 def ledCmdInRangeB : LedCmd → Bool
   | .override (.blink o n) color => decide (1 ≤ o) && decide (o ≤ 250) && decide (n < 256) && decide (color < 16)
